@@ -1,5 +1,6 @@
 import Oas3Model.Driver.Util
 import Oas3Model.Sem.Codec
+import Oas3Model.Sem.Union
 import Oas3Model.Model.Naming
 import Oas3Model.Gen.Naming
 open Lean Oas3.Driver Oas3.Codec
@@ -227,6 +228,102 @@ def runH : Handler := fun req => do
     | _ => impl
   pure (answer model implCanon judge (branchOf s docs))
 
-def ops : List (String × Handler) := [("codec.type", typeH), ("codec.run", runH)]
+
+/-! ### untagged unions: `codec.union` (tie E) and `codec.urun` (tie A) -/
+
+def altOf (j : Json) : Except String Alt := do
+  match j.getObjVal? "const" with
+  | .ok c => pure (.const (← chars c))
+  | .error _ =>
+    match j.getObjVal? "s" with
+    | .ok s => do pure (.sch (← schemaOf s))
+    | .error _ => pure .null
+
+def uvarJson : UVar → Json
+  | .unit w => Json.mkObj [("unit", str w)]
+  | .newtype t => Json.mkObj [("newtype", tyJson t)]
+
+def uvarOf (j : Json) : Except String UVar := do
+  match j.getObjVal? "unit" with
+  | .ok w => pure (.unit (← chars w))
+  | .error _ => do pure (.newtype (← tyOf (← field j "newtype")))
+
+def classNamesU (oneOf : Bool) (alts : List Alt) (d : J) : List String :=
+  (classesU fnameReal vnameReal oneOf alts d).map KnownU.name ++
+  (alts.flatMap fun a => match a with
+    | .sch s => if valid true s d || (rt (typeOf fnameReal vnameReal s) d).isSome then (classes fnameReal vnameReal s d).map Known.name else []
+    | _ => [])
+
+def judgeAllU (oneOf : Bool) (alts : List Alt) (docs : List DocCase) (res : DocCase → Option J) (strictOut : Bool) : Json :=
+  let fails := fun (d : DocCase) =>
+    if strictOut || d.pyValid then !(judgeRunU oneOf alts d.doc (res d))
+    else (!(alts.any fun a => validAlt true a d.doc) && (res d).isSome)
+  let bad := docs.filter fun d => fails d || (validU oneOf false alts d.doc != d.pyValid)
+  match bad with
+  | [] => verdict true []
+  | d0 :: _ =>
+    let disagree := bad.filter fun d => validU oneOf false alts d.doc != d.pyValid
+    let per := bad.map fun d => classNamesU oneOf alts d.doc
+    let known := if !disagree.isEmpty || per.any List.isEmpty then [] else dedupStr per.flatten
+    let why := if !disagree.isEmpty then s!"validator disagreement (model valid={validU oneOf false alts disagree.head!.doc}) on {(toJson disagree.head!.doc).compress}"
+      else s!"{bad.length} document(s) fail: " ++ String.intercalate "; " ((bad.take 6).map fun d =>
+        s!"{(toJson d.doc).compress} (valid={validU oneOf false alts d.doc}) -> {match res d with | some o => (toJson o).compress | none => "Err"} {classNamesU oneOf alts d.doc}")
+    let _ := d0
+    verdict false known why
+
+def branchOfU (oneOf : Bool) (alts : List Alt) (docs : List DocCase) : String :=
+  let cls := dedupStr ((docs.map fun d => classNamesU oneOf alts d.doc).flatten)
+  "union:" ++ (if cls.isEmpty then "clean" else String.intercalate "+" cls)
+
+def unionInputs (req : Json) : Except String (Bool × List Alt × List DocCase) := do
+  let inp ← field req "in"
+  let alts ← (← arr (← field inp "alts")).mapM altOf
+  pure (← boolOf (← field inp "oneOf"), alts, ← docsOf inp)
+
+def unionH : Handler := fun req => do
+  let (oneOf, alts, docs) ← unionInputs req
+  let impl ← field req "impl"
+  let model := Json.mkObj [("ty", match unionRoot fnameReal vnameReal alts with
+    | .untagged m => Json.mkObj [("k", "untagged"), ("vs", Json.arr (m.map uvarJson).toArray)]
+    | .plain vs => tyJson (.enum vs))]
+  let judge ← match impl.getObjVal? "ty" with
+    | .ok tj =>
+      match tj.getObjVal? "vs", tj.getObjVal? "k" with
+      | .ok (.arr vs), .ok (.str "untagged") => do
+        let t ← vs.toList.mapM uvarOf
+        pure (judgeAllU oneOf alts docs (fun d => rtU t d.doc) true)
+      | .ok _, .ok (.str "enum") => do
+        let t ← tyOf tj
+        pure (judgeAllU oneOf alts docs (fun d => rt t d.doc) true)
+      | _, _ => pure (verdict false [] s!"the root type is not an enum: {tj.compress}")
+    | .error _ => pure (verdict false [] s!"no type emitted: {impl.compress}")
+  pure (answer model impl judge (branchOfU oneOf alts docs))
+
+def urunH : Handler := fun req => do
+  let (oneOf, alts, docs) ← unionInputs req
+  let impl ← field req "impl"
+  let t := unionRoot fnameReal vnameReal alts
+  let model := Json.mkObj [("runs", Json.arr (docs.map fun d => runJson d.pyValid (rtRoot t d.doc)).toArray)]
+  let judge ← match impl.getObjVal? "runs" with
+    | .ok rj => do
+      let rs ← arr rj
+      if rs.length != docs.length then pure (verdict false [] "run count differs")
+      else
+        let obs : List (Option J) := rs.map fun r =>
+          if fieldD r "ok" (Json.bool false) == Json.bool true then some (ofJson (fieldD r "out" Json.null)) else none
+        let table := docs.zip obs
+        let lookupObs := fun (d : DocCase) => match table.find? (fun p => (toJson p.1.doc).compress == (toJson d.doc).compress) with
+          | some p => p.2 | none => none
+        pure (judgeAllU oneOf alts docs lookupObs false)
+    | .error _ => pure (verdict false [] s!"no runs: {impl.compress}")
+  let implCanon := match impl.getObjVal? "runs" with
+    | .ok (.arr rs) => Json.mkObj [("runs", Json.arr (rs.map fun r =>
+        match r.getObjVal? "out" with
+        | .ok o => Json.mkObj [("ok", fieldD r "ok" Json.null), ("out", toJson (ofJson o))]
+        | .error _ => r))]
+    | _ => impl
+  pure (answer model implCanon judge (branchOfU oneOf alts docs))
+
+def ops : List (String × Handler) := [("codec.type", typeH), ("codec.run", runH), ("codec.union", unionH), ("codec.urun", urunH)]
 
 end Oas3.Driver.Codec
